@@ -663,6 +663,8 @@ pub fn run_observe(ctx: &mut Ctx, which: &str) {
         rep.floor("token_pair_histories_held", 1);
         directed_limit_changes(rep, which, is15, level);
         rep.floor("limit_change_histories_held", 1);
+        long_lived_acknowledging(rep, level, which);
+        rep.floor("long_lived_acknowledging_histories_held", 1);
     }
     // ---- random long histories over larger alphabets
     let big_paths: Vec<String> = ["a", "b/c", "x", "", "a/b", "/x", "a/", "/", "A"].iter().map(|s| s.to_string()).collect();
@@ -760,6 +762,39 @@ fn probe_check(rep: &mut Report, limit: u8, ops: &[Op], paths: &[String]) {
                     Ok(got) => rep.violation("probe-remaining-budget", format!("observer ep{} on {:?}: disappears after {:?} further confirmable rounds, model says {}", o.ep, path, got, want), history_text(limit, ops)),
                     Err(p) => rep.violation(&p.sig(), p.text(), history_text(limit, ops)),
                 }
+            }
+        }
+    }
+}
+
+/// Long-lived, well-behaved observers: hundreds of rounds, each acknowledged (after a few other
+/// rounds at most), with message ids as a real server produces them over time - counting up across
+/// the 65535 -> 0 wrap, starting high, jumping, shared between two resources.  Nobody may be dropped.
+fn long_lived_acknowledging(rep: &mut Report, level: u32, which: &str) {
+    let paths = vec!["r".to_string(), "q".to_string()];
+    let rounds = if level == 0 { 40 } else { 700 };
+    for (vi, (start, step)) in [(65_000u16, 1u16), (65_535 - 300, 1), (0, 1), (40_000, 97), (65_535, 65_535), (300, 1)].into_iter().enumerate() {
+        for limit in [1u8, 3] {
+            let mut ops = vec![
+                Op::Register { ep: 1, token: vec![7], path: "r".into() },
+                Op::Register { ep: 2, token: vec![8, 8], path: "r".into() },
+                Op::Register { ep: 1, token: vec![9], path: "q".into() },
+            ];
+            let mut mid = start;
+            for k in 0..rounds {
+                mid = mid.wrapping_add(step);
+                let path = if k % 3 == 2 { "q" } else { "r" };
+                ops.push(Op::Changed { path: path.into(), mid, con: k % 5 != 4 });
+                // both acknowledge the round they were just sent (endpoint 2 is not on "q")
+                ops.push(Op::AckWith { ep: 1, mid, token: if k % 2 == 0 { vec![] } else { vec![7] }, proper: k % 4 < 2 });
+                if path == "r" {
+                    ops.push(Op::Ack { ep: 2, mid });
+                }
+            }
+            rep.eval();
+            match run_history(rep, limit, &ops, &paths, false, which) {
+                Ok(()) => rep.count("long_lived_acknowledging_histories_held"),
+                Err((sig, detail, step_no)) => rep.violation(&sig, format!("step {} of {}: {}", step_no, ops.len(), detail), format!("limit={} three registrations, then {} rounds with message ids from {} in steps of {} (variant {}), every round acknowledged by its observers", limit, rounds, start, step, vi)),
             }
         }
     }
